@@ -51,6 +51,53 @@ def IsShortened (gs : List Nat) (start len : Nat) : Prop :=
 def compressedAt (gs : List Nat) (start len : Nat) : Str :=
   join [':'] ((gs.take start).map hexShort) ++ ':' :: ':' :: join [':'] ((gs.drop (start + len)).map hexShort)
 
+/-! ### RFC 4291 §2.2: the text spellings of an IPv6 address
+
+1. `x:x:x:x:x:x:x:x`, each `x` one to four hex digits (either case);
+2. one `::` standing for one or more groups of zeros;
+3. the last two groups may be written as a dotted quad `d.d.d.d`.
+-/
+
+/-- the value of one hex digit, either case -/
+def hexDigitVal (c : Char) : Option Nat :=
+  if 48 ≤ c.toNat ∧ c.toNat ≤ 57 then some (c.toNat - 48)
+  else if 97 ≤ c.toNat ∧ c.toNat ≤ 102 then some (c.toNat - 87)
+  else if 65 ≤ c.toNat ∧ c.toNat ≤ 70 then some (c.toNat - 55)
+  else none
+
+/-- the number a run of hex digits denotes, continuing from `acc` -/
+def hexNumFrom : Nat → Str → Option Nat
+  | acc, [] => some acc
+  | acc, c :: cs =>
+    match hexDigitVal c with
+    | some d => hexNumFrom (acc * 16 + d) cs
+    | none => none
+
+/-- `s` is a group text (one to four hex digits) with value `g` -/
+def IsHextet (s : Str) (g : Nat) : Prop := 1 ≤ s.length ∧ s.length ≤ 4 ∧ hexNumFrom 0 s = some g
+
+/-- the texts `fs` are group texts with the values `gs` -/
+def Hextets : List Str → List Nat → Prop
+  | [], [] => True
+  | f :: fs, g :: gs => IsHextet f g ∧ Hextets fs gs
+  | _, _ => False
+
+/-- group texts, the last two groups optionally written as one dotted quad -/
+def Fields (fs : List Str) (gs : List Nat) : Prop :=
+  Hextets fs gs ∨
+  ∃ fs' gs' v, v < 2 ^ 32 ∧ Hextets fs' gs' ∧ fs = fs' ++ [dotted v] ∧ gs = gs' ++ [v / 65536, v % 65536]
+
+/-- the value of a list of groups, most significant first -/
+def groupsVal (gs : List Nat) : Nat := gs.foldl (fun a g => a * 65536 + g) 0
+
+/-- `addr` is a spelling of the 128-bit address `n`: eight groups, or `hi::lo` with at most seven groups
+written and the missing ones zero -/
+def IsV6Spelling (addr : Str) (n : Nat) : Prop :=
+  (∃ fs gs, Fields fs gs ∧ gs.length = 8 ∧ addr = join [':'] fs ∧ n = groupsVal gs) ∨
+  (∃ hi lo ghi glo, Hextets hi ghi ∧ Fields lo glo ∧ ghi.length + glo.length ≤ 7 ∧
+    addr = join [':'] hi ++ ':' :: ':' :: join [':'] lo ∧
+    n = groupsVal (ghi ++ List.replicate (8 - (ghi.length + glo.length)) 0 ++ glo))
+
 /-- `a/len` -/
 def cidr (a : Str) (len : Nat) : Str := a ++ '/' :: toDec len
 
